@@ -104,6 +104,7 @@ class Body:
         self._pred = None
         self._idom = None
         self._defs = None
+        self._mut_borrowed = None
         self._ipdom = None
 
     def __repr__(self):
@@ -303,10 +304,43 @@ class Body:
             return self.expr_of_place(op["place"], depth, at)
         return Unknown(op.get("dbg", "?"))
 
+    def _stable_field(self, l, i):
+        """A struct local built by one literal and afterwards only modified in *other* fields (`let mut t = T { a, b };
+        t.b = ..;`): field i still holds the operand the literal gave it. Returns that operand or None."""
+        if l <= self.arg_count:
+            return None
+        ds = self.defs.get(l, [])
+        pds = self.partial_defs.get(l, [])
+        if len(ds) != 1 or not pds or ds[0][2] != "assign" or ds[0][3]["rv"]["k"] != "agg" or ds[0][3]["rv"].get("ak") not in ("adt", "tuple"):
+            return None
+        ops = ds[0][3]["rv"]["ops"]
+        if i >= len(ops) or ds[0][3]["rv"].get("variant") not in (None, ds[0][3]["rv"].get("adt", "").split("::")[-1]):
+            return None
+        for _, _, kind, node in pds:
+            pl = node["place"] if kind == "assign" else node["dest"]
+            if not pl["p"] or pl["p"][0].get("k") != "field" or pl["p"][0].get("i") == i:
+                return None
+        if self._mut_borrowed is None:
+            mb = set()
+            for bi, si, st, it in self.locations(cleanup=False):
+                if not it and st["k"] == "assign" and st["rv"]["k"] in ("ref", "rawptr") and st["rv"].get("mut"):
+                    mb.add(st["rv"]["place"]["l"])
+            self._mut_borrowed = mb
+        if l in self._mut_borrowed:
+            return None
+        return ops[i]
+
     def expr_of_place(self, pl, depth=30, at=None):
+        if pl["p"] and pl["p"][0].get("k") == "field" and depth > 2:
+            op = self._stable_field(pl["l"], pl["p"][0]["i"])
+            if op is not None and op.get("k") in ("copy", "move", "const"):
+                e = self.expr_of_operand(op, depth - 1, at)
+                return self._project(e, pl["p"][1:], depth, at)
         base = self.expr_of_local(pl["l"], depth, at)
-        e = base
-        for pr in pl["p"]:
+        return self._project(base, pl["p"], depth, at)
+
+    def _project(self, e, projs, depth, at):
+        for pr in projs:
             kk = pr["k"]
             if kk == "deref":
                 e = Deref(e)
